@@ -1,5 +1,5 @@
 From Coq Require Import List NArith Arith.
-From SK Require Import lib.LGraph lib.Mono model.C11_Model proof.C11_Aut proof.C11_WL proof.C11_Dedup proof.C11_Main proof.C11_Comp proof.C11_VF2 proof.C11_Vocab proof.C11_Sig proof.C11_Anchor.
+From SK Require Import lib.LGraph lib.Mono model.C11_Model proof.C11_Aut proof.C11_WL proof.C11_Dedup proof.C11_Main proof.C11_Comp proof.C11_VF2 proof.C11_Vocab proof.C11_Sig proof.C11_Anchor model.C11_State proof.C11_StateProof.
 Import ListNotations.
 
 (** Vocabulary (definitions in proof/C11_Aut.v, written out here for the reader):
@@ -154,6 +154,21 @@ Theorem C11_anchors :
        In (wl_anchor g) (components g) /\ forall c, In c (components g) -> not_before c (wl_anchor g)).
 Proof. exact anchors_all. Qed.
 Print Assumptions C11_anchors.
+
+(** Reused objects (round 3; model/C11_State.v: an Automorphism instance holds a reference to the caller's graph and caches
+    its analysis at the first read; AutoEst.fit() recomputes).  For a history "edit the graph in place, read" on ONE
+    Automorphism object every answer is the analysis of the value the graph had at the FIRST read (no invalidation);
+    an object not read before the edit answers for the edited value; reading twice changes nothing; an estimator
+    fitted again after every edit always answers for the current value; reading an unfitted estimator is an error. *)
+Theorem C11_object_state :
+  forall (fn : nlab -> N) (fe : elab -> N) (k : nat) (g0 : graph) (gs : list graph),
+    reads fn fe (a_new g0) gs = map (fun _ => analyze fn fe (hd g0 gs)) gs /\
+    (forall g g', fst (a_read fn fe (a_edit g' (a_new g))) = analyze fn fe g') /\
+    (forall o, let '(a, o') := a_read fn fe o in a_read fn fe o' = (a, o')) /\
+    refits fn fe k (e_new g0) gs = map (fun g => Some (wl fn fe g k)) gs /\
+    e_colors (e_new g0) = None.
+Proof. exact objects_all. Qed.
+Print Assumptions C11_object_state.
 
 (** Clause 2, second sentence (the fast estimate).  After any number [k] of WL-1 sweeps (AutoEst max_iter), every
     automorphism that preserves the labels the estimate was given keeps the colour of every node — component swaps
